@@ -28,6 +28,7 @@ func init() {
 			{ID: "C16.7", Desc: "in-place mutation only on per-request objects", Run: ruleC16_7, MinSites: 1},
 			{ID: "C16.8", Desc: "the memory backend never hands out or keeps a caller-visible buffer", Run: func(c *Ctx) { ruleC14_2(c); renameRule(c, "C14.2", "C16.8") }, MinSites: 2},
 			{ID: "C16.9", Desc: "no slice of a pooled object's storage outlives its return to the pool", Run: ruleC16_9, MinSites: 0},
+			{ID: "C16.10", Desc: "a response object built by copying another one gets a header map of its own", Run: ruleC16_10, MinSites: 0},
 		},
 	})
 }
@@ -308,7 +309,34 @@ func ruleC16_4(c *Ctx) {
 					what = "delete"
 				}
 			}
-			if g == nil || !c.P.IsRepoPkgPath(g.Pkg.Pkg.Path()) {
+			// a map that may BE a package-level map: handed out by a function that returns the global itself on some path
+			if g == nil {
+				var m ssa.Value
+				switch x := in.(type) {
+				case *ssa.MapUpdate:
+					m = x.Map
+				case ssa.CallInstruction:
+					cc := x.Common()
+					if b, ok := cc.Value.(*ssa.Builtin); ok && (b.Name() == "delete" || b.Name() == "clear") && len(cc.Args) > 0 {
+						if _, isMap := cc.Args[0].Type().Underlying().(*types.Map); isMap {
+							m = cc.Args[0]
+						}
+					}
+				}
+				if m != nil {
+					c.P.TraceBack(m, TraceOpts{NoParams: true, NoHeapFields: true}, func(v ssa.Value, _ []int) bool {
+						if u, ok := v.(*ssa.UnOp); ok && u.Op == token.MUL {
+							if gg, ok := u.X.(*ssa.Global); ok {
+								g = gg
+								what += " (through a value that may be the package-level map itself)"
+								return false
+							}
+						}
+						return true
+					})
+				}
+			}
+			if g == nil || g.Pkg == nil || !c.P.IsRepoPkgPath(g.Pkg.Pkg.Path()) {
 				return
 			}
 			// a load through a pointer held in the global (e.g. *defaultRegistry) is the pointee, not the global
@@ -648,5 +676,68 @@ func ruleC16_9(c *Ctx) {
 	}
 	if n == 0 {
 		c.Pass("C16.9", "no-pool", desc, fmt.Sprintf("%d repo functions scanned: no sync.Pool.Put", len(fns)))
+	}
+}
+
+// ruleC16_10: a response handed to a caller is the caller's: callers delete hop-by-hop fields from it, add fields,
+// and do so concurrently. A response object allocated on the exchange and filled by copying a whole http.Response value
+// (`*resp = *tmpl`) shares the template's Header map unless the Header field is given a fresh map afterwards.
+func ruleC16_10(c *Ctx) {
+	desc := "no response is built as a shallow copy of another response (shared Header map)"
+	n := 0
+	var fns []*ssa.Function
+	for fn := range c.A.Reach {
+		fns = append(fns, fn)
+	}
+	sort.Slice(fns, func(i, j int) bool { return FuncName(fns[i]) < FuncName(fns[j]) })
+	for _, fn := range fns {
+		instrsOf(fn, func(in ssa.Instruction) {
+			st, ok := in.(*ssa.Store)
+			if !ok {
+				return
+			}
+			al, ok := st.Addr.(*ssa.Alloc)
+			if !ok || !isHTTPResponsePtr(al.Type()) {
+				return
+			}
+			// whole-value store of a loaded response
+			ld, ok := st.Val.(*ssa.UnOp)
+			if !ok || ld.Op != token.MUL || !isHTTPResponsePtr(ld.X.Type()) {
+				return
+			}
+			n++
+			fresh := false
+			if refs := al.Referrers(); refs != nil {
+				for _, r := range *refs {
+					fa, ok := r.(*ssa.FieldAddr)
+					if !ok || fieldName(fa.X.Type(), fa.Field) != "Header" || fa.Referrers() == nil {
+						continue
+					}
+					for _, u := range *fa.Referrers() {
+						s2, ok := u.(*ssa.Store)
+						if !ok || s2.Addr != ssa.Value(fa) {
+							continue
+						}
+						switch v := s2.Val.(type) {
+						case *ssa.MakeMap:
+							fresh = true
+						case *ssa.Call:
+							if callIsMethod(&v.Call, "net/http", "Header", "Clone") || callIsPkgFunc(&v.Call, "maps", "Clone") {
+								fresh = true
+							}
+						}
+					}
+				}
+			}
+			where := c.P.ShortName(fn) + "@" + c.P.InstrPos(in)
+			if fresh {
+				c.Pass("C16.10", "response-copy-owns-header fn="+c.P.ShortName(fn), desc, where)
+			} else {
+				c.Fail("C16.10", "response-copy-owns-header fn="+c.P.ShortName(fn), desc, where+": the copy keeps the source's Header map; every response made this way (e.g. each synthesised 504) shares one map, so one caller's edits show up in other callers' responses and concurrent callers race on it")
+			}
+		})
+	}
+	if n == 0 {
+		c.Pass("C16.10", "no-response-copy", desc, fmt.Sprintf("%d functions scanned: no whole-value copy of an http.Response", len(fns)))
 	}
 }
